@@ -1,5 +1,8 @@
 import Driver.Proto
 import AGH.Spec.Stats
+import AGH.Spec.StatsLocks
+import AGH.Model.StatsFaults
+import AGH.Spec.StatsTop
 open Driver AGH.C09
 
 /-! Line-protocol driver for C09 (statistics).  Stateful: a block starts with
@@ -135,6 +138,33 @@ def stepOp (st : State × Ghost) (op : String) (ins impl : List String) : Option
     pure ((s', g'), ← answer "clear" s' g' true 0 impl)
   | "C09.read", [] =>
     pure ((s, g), ← answer "read" s g false 0 impl)
+  -- fault / race variants (findings; never generated, only replayed)
+  | "C09.tickfail", [id] =>
+    let id ← parseU32 id
+    let s' := tickFail s id
+    -- the property expects counts to survive the rollover
+    let g' := ghostStep g (.tick id)
+    pure ((s', g'), ← answer "tickfail" s' g' true 0 impl)
+  | "C09.readinreset", [] =>
+    -- a read while a reset is in flight must still be answered (with the data of
+    -- before or after the reset); the model has no state "no database"
+    match impl with
+    | mid :: rest =>
+      let s' := clear s
+      let g' := ghostStep g .clear
+      let line ← answer "readinreset" s' g' true 0 rest
+      if mid == "mid=ok" then pure ((s', g'), line)
+      else
+        let rd := getData s'
+        pure ((s', g'), verdict false (some "C09.read-fails-during-reset")
+          (joinWith "\t" ("readinreset:1:x" :: "mid=ok" :: (showState s' true 0 ++ showRead rd))))
+    | [] => none
+  | "C09.resetrace", [id] =>
+    let id ← parseU32 id
+    let s' := resetRace s id
+    -- a clear and a rollover, in either order, leave nothing counted
+    let g' := ghostStep (ghostStep g .clear) (.tick id)
+    pure ((s', g'), ← answer "resetrace" s' g' true 0 impl)
   | _, _ => none
 
 /-- `C09.conc clock limitMs writers per ticks`: `writers` goroutines each do
@@ -176,69 +206,73 @@ def stepConc (ins impl : List String) : Option String := do
     pure (verdict (modelObs == impl) spec (joinWith "\t" (("conc:" ++ (if g.dom then "1" else "0") ++ ":1") :: modelObs)))
   | _ => none
 
-/-! `C09.locks`: the model treats Update, the hourly flush and a read as mutually
-atomic.  The harness lists, from the sources of the tree under test, which
-locks are held (Lock immediately followed by the deferred Unlock) around the
-calls that touch the current unit / the window.  Expected facts = the locking
-discipline the model was written against; the requirement below is the part
-the atomicity assumption needs. -/
-def expectedLockFacts : List String := [
-  "call:add@Update:confMu.Lock+currMu.Lock",
-  "call:clear@handleStatsReset:none",
-  "call:clear@setLimit:none",
-  "call:dataFromUnits@getData:none",
-  "call:deserialize@New:none",
-  "call:flushDB@flush:confMu.Lock+currMu.Lock",
-  "call:getData@handleStats:confMu.RLock",
-  "call:loadUnits@TopClientsIP:confMu.RLock",
-  "call:loadUnits@getData:none",
-  "call:serialize@Close:currMu.RLock",
-  "call:serialize@flushDB:none",
-  "call:serialize@loadUnits:currMu.RLock",
-  "call:setLimit@handleStatsConfig:confMu.Lock",
-  "set:curr@New:none",
-  "set:curr@clear:currMu.Lock",
-  "set:curr@flushDB:none"]
+/-! `C09.locks`: the harness lists, from the sources of the tree under test,
+which locks are held (Lock immediately followed by the deferred Unlock) around
+the calls and assignments that touch the current unit, the window and the
+configuration.  The facts are turned into a `LockFacts` value and the
+hypothesis of `C09_interleavings_serializable` (`LockFacts.ok` = `okFor` for
+Update, flush, read, setDays, putConf) is evaluated on it: a T-style tie — the
+facts are regenerated, the obligation is re-checked; `LockFacts.real` (what the
+model was written against) is shown for comparison only. -/
+def showMode : Option Mode → String
+  | none => "-"
+  | some .R => "R"
+  | some .W => "W"
 
-def factHolds (f : String) (lock : String) : Bool := ((f.splitOn ":").getLast?.getD "").splitOn "+" |>.contains lock
-
-def holdsAny (f : String) (locks : List String) : Bool := locks.any (factHolds f)
-
-/-- The obligation on the (regenerated) facts.  Every `add` runs under the
-exclusive current-unit lock and some configuration lock; every `flushDB` (swap
-+ persist + delete) under both exclusive locks; every read of the window
-(`getData`, or `loadUnits` outside `getData`) under a configuration lock, which
-excludes the flush; `loadUnits` serialises the current unit under its lock;
-`clear` swaps the unit under the exclusive lock; no unpaired Lock; and the
-three entry points exist (a rename must not pass vacuously). -/
-def locksOK (facts : List String) : Bool :=
-  facts.any (·.startsWith "call:add@Update:") &&
-  facts.any (·.startsWith "call:flushDB@flush:") &&
-  facts.any (·.startsWith "call:getData@") &&
-  facts.any (·.startsWith "call:serialize@loadUnits:") &&
-  facts.all (fun f =>
-    (if f.startsWith "call:add@" then
-       factHolds f "currMu.Lock" && holdsAny f ["confMu.Lock", "confMu.RLock"] else true) &&
-    (if f.startsWith "call:flushDB@" then factHolds f "currMu.Lock" && factHolds f "confMu.Lock" else true) &&
-    (if f.startsWith "call:getData@" then holdsAny f ["confMu.Lock", "confMu.RLock"] else true) &&
-    (if f.startsWith "call:loadUnits@" && !f.startsWith "call:loadUnits@getData:" then
-       holdsAny f ["confMu.Lock", "confMu.RLock"] else true) &&
-    (if f.startsWith "call:serialize@loadUnits:" then holdsAny f ["currMu.Lock", "currMu.RLock"] else true) &&
-    (if f.startsWith "set:curr@clear:" then factHolds f "currMu.Lock" else true) &&
-    !f.startsWith "unpaired:" && !f.startsWith "parse-error:")
+def showFacts (F : LockFacts) : String :=
+  "upd=" ++ showMode F.updConf ++ "/" ++ showMode F.updCurr ++
+  " flush=" ++ showMode F.flushConf ++ "/" ++ showMode F.flushCurr ++
+  " read=" ++ showMode F.readConf ++ "/" ++ showMode F.loadCurr ++
+  " setdays=" ++ showMode F.setDaysConf ++ " putconf=" ++ showMode F.putConfConf ++
+  " clear=" ++ showMode F.clearCurr ++ " reset=" ++ showMode F.resetConf
 
 def stepLocks (impl : List String) : Option String := do
   match impl with
   | n :: facts =>
     let n ← n.toNat?
     if facts.length ≠ n then none else
-    -- a T-style tie: the facts are regenerated from the tree and the obligation is
-    -- re-checked on them; `expectedLockFacts` is shown for comparison only
-    let ok := locksOK facts
+    let F := LockFacts.ofStrings facts
+    let ok := F.ok && factsClean facts
     let spec := if ok then none else some "C09.atomicity-locks"
-    let same := if facts == expectedLockFacts then "as-modelled" else "changed"
-    pure (verdict ok spec ("locks:1:1\t" ++ same ++ "\t" ++ joinWith "\t" expectedLockFacts))
+    let same := if F == LockFacts.real then "as-modelled" else "changed"
+    pure (verdict ok spec ("locks:1:1\t" ++ same ++ "\t" ++ showFacts F ++ "\thypothesis-of-C09_interleavings_serializable=" ++
+      (if ok then "holds" else "BROKEN") ++ "\treset-covered=" ++ (if okFor F .reset then "yes" else "no")))
   | [] => none
+
+/-- `C09.top seed n clients domains`: a burst of accepted entries on a fresh unit;
+observation = `TopObs` (see AGH/Spec/StatsTop.lean). -/
+def showTopObs (o : TopObs) : List String :=
+  [toString o.nTotal, joinWith "," (o.nResult.map toString),
+   toString o.clientsLen, toString o.clientsSum, toString o.domainsLen, toString o.domainsSum,
+   toString o.blockedLen, toString o.blockedSum,
+   toString o.serClientsLen, toString o.serClientsSum, toString o.serClientsMin,
+   toString o.serDomainsLen, toString o.serDomainsSum, toString o.serBlockedLen, toString o.serBlockedSum,
+   toString o.backClientsSum]
+
+def parseTopObs : List String → Option TopObs
+  | [a, r, b, c, d, e, f, g, h, i, j, k, l, m, n, o] => do
+    pure { nTotal := ← a.toNat?, nResult := ← (r.splitOn ",").mapM (·.toNat?)
+           clientsLen := ← b.toNat?, clientsSum := ← c.toNat?, domainsLen := ← d.toNat?, domainsSum := ← e.toNat?
+           blockedLen := ← f.toNat?, blockedSum := ← g.toNat?
+           serClientsLen := ← h.toNat?, serClientsSum := ← i.toNat?, serClientsMin := ← j.toNat?
+           serDomainsLen := ← k.toNat?, serDomainsSum := ← l.toNat?
+           serBlockedLen := ← m.toNat?, serBlockedSum := ← n.toNat?, backClientsSum := ← o.toNat? }
+  | _ => none
+
+def stepTop (ins impl : List String) : Option String := do
+  match ins with
+  | [seed, n, nc, nd] =>
+    let seed ← seed.toNat?
+    let n ← n.toNat?
+    let nc ← nc.toNat?
+    let nd ← nd.toNat?
+    if nc = 0 ∨ nd = 0 ∨ n > 100000 then none else
+    let m := topObsOf (genEntries n seed nc nd)
+    let io ← parseTopObs impl
+    let spec := if topSpecOK io then none else some "C09.top-maps"
+    let cls := if m.clientsLen > 100 ∨ m.domainsLen > 100 then "top.truncated:1:1" else "top.full:1:1"
+    pure (verdict (showTopObs m == impl) spec (joinWith "\t" (cls :: showTopObs m)))
+  | _ => none
 
 def step (d : DState) (line : String) : DState × String :=
   let fs := splitTab line
@@ -265,6 +299,8 @@ def step (d : DState) (line : String) : DState × String :=
         (d, (stepConc ins impl).getD "bad-op")
       else if op == "C09.locks" then
         (d, (stepLocks impl).getD "bad-op")
+      else if op == "C09.top" then
+        (d, (stepTop ins impl).getD "bad-op")
       else
         match d.st with
         | none => (d, "bad-op")
